@@ -32,6 +32,9 @@ def sweeps(tier):
     out.append(sweep(wild, singles + [['sql_quote', 'html_quote'], ['url_unquote', 'newline_to_br'], ['url_unquote_plus', 'sql_quote'],
                                       ['newline_to_br', 'sql_quote', 'upper']],
                      fmts=('', 'sql-quote', 'url-unquote', 'multi-line', 'strip'), sizes=(-1, 3), forms=('name', 'expr')))
+    # the money formats refuse text: nothing of an untrusted value comes out
+    out.append(sweep(vals + wild[:2], singles, fmts=('whole-dollars', 'dollars-and-cents', 'dollars-with-commas',
+                                                     'dollars-and-cents-with-commas'), sizes=(-1, 4), forms=('name', 'expr')))
     if tier == 'thorough':
         out.append(sweep(vals, [m for m in _subsets(2)], fmts=FMTS, cfmts=('s', '6s'), sizes=(-1, 3, 12),
                          forms=('name',)))
